@@ -24,6 +24,20 @@ pub enum ByzLeader {
     /// equivocates in the last slot of its window: version A to the next leader, version B to the rest
     TwoBlocksLastSlot,
     Late,
+    /// directed: two blocks in the window's first slot, version A to `RunCfg::rival`'s X group and version B
+    /// to its Y group, nothing afterwards (the rest of the window is skipped)
+    RivalSplit,
+}
+
+/// Roles of the directed rival-split script (validator indices): the Byzantine leader z votes for both
+/// blocks; u and a receive version A (u + a + z >= 60 %), c1 and c2 version B (c1 + c2 (+ z) >= 40 %).
+#[derive(Clone, Debug)]
+pub struct Rival {
+    pub z: usize,
+    pub u: usize,
+    pub a: usize,
+    pub c1: usize,
+    pub c2: usize,
 }
 
 #[derive(Clone)]
@@ -46,6 +60,9 @@ pub struct RunCfg {
     pub withhold: Option<(usize, BTreeSet<u64>)>,
     /// hostile phase: (from, to, input classes)
     pub hostile: Option<(Duration, Duration, Vec<&'static str>)>,
+    pub rival: Option<Rival>,
+    /// record the route of every shred (C16 node-level delivery monitor)
+    pub track_routes: bool,
     pub label: String,
 }
 
@@ -55,7 +72,7 @@ impl RunCfg {
                "byz_votes": self.byz_votes, "byz_certs": self.byz_certs,
                "crashes": self.crashes.iter().map(|(v, t)| format!("{v}@{}ms", t.as_millis())).collect::<Vec<_>>(), "chaos": self.chaos.name,
                "t_stable_ms": self.t_stable.as_millis() as u64, "delta_ms": self.delta.as_millis() as u64, "duration_ms": self.duration.as_millis() as u64,
-               "dissemination": format!("{:?}", self.diss), "tx_rate": self.tx_rate, "label": self.label,
+               "dissemination": format!("{:?}", self.diss), "tx_rate": self.tx_rate, "label": self.label, "rival_roles": self.rival.as_ref().map(|r| format!("{r:?}")),
                "withhold": self.withhold.as_ref().map(|(v, s)| format!("node {v} slots {s:?}")),
                "hostile": self.hostile.as_ref().map(|(a, b, c)| format!("{}..{} ms {:?}", a.as_millis(), b.as_millis(), c))})
     }
@@ -91,6 +108,7 @@ pub struct RunOut {
     pub hostile_roles: BTreeSet<String>,
     /// None = no probe made; Some(answered)
     pub probe: Option<bool>,
+    pub routes: BTreeMap<(u64, u64, u64), crate::cluster::ShredRoute>,
 }
 
 fn window_leader(n: usize, w: u64) -> usize {
@@ -120,13 +138,23 @@ pub async fn execute(cfg: &RunCfg, rng: &mut SRng) -> RunOut {
         delta: cfg.delta,
         withhold: cfg.withhold.iter().cloned().collect(),
         delivered_late: 0,
+        rival: cfg.rival.as_ref().map(|r| RivalSched { pair: (r.u, r.a), slot: None, vote_delay: Duration::from_millis(5000), cert_delay: Duration::from_millis(rng.random_range(150..380)), held_votes: 0, held_certs: 0, next_leader: (r.z + 1) % n, hash_a: None, hold_a: Duration::from_millis(450) }),
     }));
+    cl.log.lock().unwrap().track_routes = cfg.track_routes;
     install_scheduler(&cl, sched.clone());
     let mut byz = ByzState::new(&cfg.byz, rng);
     if !cfg.byz_votes {
         for m in byz.mode.values_mut() {
             *m = ByzVote::Silent;
         }
+    }
+    if cfg.rival.is_some() {
+        // notarization and finalization votes for every block seen, i.e. for both versions
+        for m in byz.mode.values_mut() {
+            *m = ByzVote::RivalScript;
+        }
+        let r = cfg.rival.as_ref().unwrap();
+        byz.rival_x_group = vec![r.u, r.a];
     }
     let byz_modes: BTreeMap<usize, String> = byz.mode.iter().map(|(v, m)| (*v, format!("{m:?}"))).collect();
     let mut samples = Vec::new();
@@ -178,7 +206,7 @@ pub async fn execute(cfg: &RunCfg, rng: &mut SRng) -> RunOut {
         if !cfg.byz.is_empty() {
             byz_step(&cl, &mut byz, rng);
             if cfg.byz_certs && (now.as_millis() / 10) % 7 == 0 {
-                byz_certs(&cl, &mut byz, rng, max_slot_seen.saturating_sub(12));
+                byz_certs(&cl, &mut byz, rng, max_slot_seen.saturating_sub(12), cfg.rival.is_some());
             }
         }
         // Byzantine leaders: act when the previous window is being voted on
@@ -187,15 +215,21 @@ pub async fn execute(cfg: &RunCfg, rng: &mut SRng) -> RunOut {
             max_slot_seen = max_slot_seen.max(seen_max);
             let w = max_slot_seen / 4 + 1;
             let leader = window_leader(n, w);
-            let trigger = max_slot_seen % 4 >= 2 || max_slot_seen == 0;
+            // act once votes for the last slot of the preceding window are on the wire, so that the block
+            // extends the tip the correct nodes will accept as parent (an earlier start builds on a stale
+            // parent and the block is simply ignored)
+            let trigger = max_slot_seen % 4 == 3;
             if cfg.byz.contains(&leader) && trigger && led_windows.insert(w) && cfg.byz_leader != ByzLeader::Silent {
                 // parent: the most recent block seen in honest votes
                 let parent: Bid = byz.seen_blocks.iter().filter(|b| b.0 < w * 4).max_by_key(|b| b.0).copied().unwrap_or((0, [0; 32]));
                 let targets = cl.correct();
                 let mut par = parent;
-                let base = now + Duration::from_millis(if cfg.byz_leader == ByzLeader::Late { 1200 } else { 300 });
+                let base = now + Duration::from_millis(if cfg.byz_leader == ByzLeader::Late { 1200 } else { 60 });
                 for (k, slot) in (w * 4..w * 4 + 4).enumerate() {
                     let at = base + Duration::from_millis(400 * k as u64);
+                    if cfg.byz_leader == ByzLeader::RivalSplit && k > 0 {
+                        break;
+                    }
                     let a = byz_block(rng, &cfg.ep, leader, slot, par, 1);
                     byz_blocks.push(((slot, a.hash), par));
                     if cfg.byz_leader == ByzLeader::TwoBlocksLastSlot && k == 3 {
@@ -207,6 +241,25 @@ pub async fn execute(cfg: &RunCfg, rng: &mut SRng) -> RunOut {
                             for s in &blk.bytes {
                                 for sh in s {
                                     pending_sends.push((at, leader, to, sh.clone()));
+                                }
+                            }
+                        }
+                    } else if cfg.byz_leader == ByzLeader::RivalSplit {
+                        let r = cfg.rival.as_ref().expect("rival roles");
+                        let b = byz_block(rng, &cfg.ep, leader, slot, par, 2);
+                        byz_blocks.push(((slot, b.hash), par));
+                        {
+                            let mut sl = sched.lock().unwrap();
+                            let rs = sl.rival.as_mut().unwrap();
+                            rs.slot = Some(slot);
+                            rs.hash_a = Some(a.hash);
+                        }
+                        for (grp, blk) in [([r.u, r.a], &a), ([r.c1, r.c2], &b)] {
+                            for to in grp {
+                                for s in &blk.bytes {
+                                    for sh in s {
+                                        pending_sends.push((at, leader, to, sh.clone()));
+                                    }
                                 }
                             }
                         }
@@ -333,6 +386,7 @@ pub async fn execute(cfg: &RunCfg, rng: &mut SRng) -> RunOut {
         hostile_sent,
         hostile_roles,
         probe,
+        routes: std::mem::take(&mut l.routes),
     }
 }
 
